@@ -302,7 +302,7 @@ func main() {
 	}
 	nM, nN, nS, nT := 400, 450, 210, 250
 	if c.Thorough() {
-		nM, nN, nS, nT = 5000, 6000, 2400, 3000
+		nM, nN, nS, nT = 2000, 2500, 900, 1200
 	}
 	for i := 0; i < nM; i++ {
 		runM(c, c.Rand.Fork(), nil)
